@@ -71,7 +71,7 @@ class Ref:
 
 
 def idx_variants(default, which):
-    """default names, a permuted tuple, numbered names"""
+    """default names, a permuted tuple, shifted letters, numbered names"""
     occ = [x for x in default if x in "ijklmno"]
     virt = [x for x in default if x in "abcdefgh"]
     if which == "default":
@@ -79,6 +79,14 @@ def idx_variants(default, which):
     if which == "permuted":
         m = dict(zip(occ, occ[1:] + occ[:1]))
         m.update(zip(virt, virt[::-1]))
+        return [m[x] for x in default]
+    if which == "shifted":
+        # the letters that follow the default ones: the names a definition uses for its own
+        # contracted indices (a contracted index missing from a definition's list collides)
+        on = list("lmnoijk")[:len(occ)] if len(occ) <= 3 else list("mnolijk")[:len(occ)]
+        vn = list("defgabc")[:len(virt)] if len(virt) <= 3 else list("efghabc")[:len(virt)]
+        m = dict(zip(occ, on))
+        m.update(zip(virt, vn))
         return [m[x] for x in default]
     if which == "numbered":
         on = ["k2", "j", "i10", "m", "l3"]
@@ -230,7 +238,7 @@ def main():
     TIMEOUT = 60000 if quick else 300000
     run = Run("C12", a.tier, "translation_validation")
     items = []
-    variants = ["default", "permuted"] if quick else ["default", "permuted", "numbered"]
+    variants = ["default", "permuted", "shifted"] if quick else ["default", "permuted", "shifted", "numbered"]
 
     def model_for(name, fully):
         no = sum(1 for x in __import__("adcgen").Intermediates().available[name].default_idx if x in "ijklmno")
